@@ -127,7 +127,7 @@ def run(tier, replay=None):
         "samples": samples[:3] + [stats["sample"]],
         "exhaustive": True,
         "keys_enumerated": nkeys, "journal_names_parsed_by_real_code": nnames,
-        "pipestance_runs": stats["runs"], "programs": [p["name"] for p in progs],
+        "pipestance_runs": stats["runs"], "programs": len(progs), "program_names": [p["name"] for p in progs],
         "restart_runs_with_orphans": len(ospecs), "stale_notifications_written": norph,
         "trace_events": stats["events"], "tlc_runs": tlc_info, "known_findings_hit": hit,
     }, [
